@@ -150,8 +150,8 @@ func UnpackLayer(dest string, layer io.Reader, options *TarOptions) (size int64,
 				}
 				// os.RemoveAll opens the parent of a path it cannot unlink
 				// directly; never let that parent be a fifo or a device.
-				if fi, err := os.Stat(dir); err == nil && !fi.IsDir() {
-					return 0, fmt.Errorf("whiteout %q: %q is not a directory", hdr.Name, dir)
+				if fi, err := os.Stat(filepath.Dir(originalPath)); err == nil && !fi.IsDir() {
+					return 0, fmt.Errorf("whiteout %q: %q is not a directory", hdr.Name, filepath.Dir(originalPath))
 				}
 				if err := os.RemoveAll(originalPath); err != nil {
 					return 0, err
